@@ -391,3 +391,120 @@ def c12_multipoint(rng, tier):
     if relerr(Fr, Fa) > 1e-4:
         out.append(_fail("a very stiff structure does not reproduce the rigid aerodynamic analysis", Fr[0, :2], Fa[0, :2], beta=beta, **case))
     return out
+
+
+# ---------------------------------------------------------------------------------------
+# C20  rejection, warnings, finiteness, repeatability, non-mutation
+# ---------------------------------------------------------------------------------------
+@oracle("C20", "rejections_and_warnings")
+def c20_reject(rng, tier):
+    import warnings
+    import openmdao.api as om
+    from openaerostruct.geometry.utils import generate_mesh
+    from openaerostruct.structures.struct_groups import SpatialBeamAlone
+    from openaerostruct.integration.aerostruct_groups import AerostructGeometry
+    from openaerostruct.geometry.geometry_group import build_sections
+    from openaerostruct.utils.check_surface_dict import check_surface_dict_keys
+    out = []
+
+    def expect(exc, fn, what, **case):
+        try:
+            with quiet():
+                r = fn()
+        except exc:
+            return
+        except Exception as ex:
+            out.append(_fail(what + ": raised %s instead of %s" % (type(ex).__name__, exc.__name__), type(ex).__name__, exc.__name__, **case)); return
+        out.append(_fail(what + ": accepted, numbers were produced", "no error", exc.__name__, **case))
+    num_y = int(rng.choice([2, 4, 6, 8, 10, 20]))
+    expect(ValueError, lambda: generate_mesh(dict(num_x=2, num_y=num_y, wing_type=str(rng.choice(["rect", "CRM"])), symmetry=bool(rng.integers(2)))),
+           "even number of spanwise nodes", num_y=num_y)
+    wt = str(rng.choice(["delta", "Rect", "crm", "elliptic"]))
+    expect(NameError, lambda: generate_mesh(dict(num_x=2, num_y=5, wing_type=wt, symmetry=True)), "unknown wing type", wing_type=wt)
+    mesh = gen.rand_mesh(rng, 2, 3, True, planar=True, jitter=0.0)
+    wb = dict(data_x_upper=np.linspace(0.1, 0.6, 6), data_x_lower=np.linspace(0.1, 0.6, 6),
+              data_y_upper=np.array([0.05, 0.06, 0.065, 0.065, 0.06, 0.05]), data_y_lower=-np.array([0.05, 0.06, 0.065, 0.065, 0.06, 0.05]),
+              original_wingbox_airfoil_t_over_c=0.12, strength_factor_for_upper_skin=1.0)
+    for grp in (SpatialBeamAlone, AerostructGeometry):
+        fem = str(rng.choice(["box", "Tube", "beam"]))
+        s = pipelines.struct_surface("w", mesh, True, fem=fem)
+        def build(s=s, grp=grp):
+            p = om.Problem(reports=False); p.model.add_subsystem("w", grp(surface=s)); p.setup()
+        expect(NameError, build, "unknown structural model type in %s" % grp.__name__, fem_model_type=fem)
+        for key in ("skin_thickness_cp", "spar_thickness_cp"):
+            s = pipelines.struct_surface("w", mesh, True, fem="wingbox", **wb)
+            s.pop("thickness_cp", None)
+            s[key] = np.array([0.005, 0.01])
+            def build2(s=s, grp=grp):
+                p = om.Problem(reports=False); p.model.add_subsystem("w", grp(surface=s)); p.setup(); p.run_model()
+            expect(NameError, build2, "only %s given for a wingbox in %s" % (key, grp.__name__), group=grp.__name__, key=key)
+    num = int(rng.integers(2, 4))
+    for bad in ("ny", "taper", "span", "sweep", "sec_name"):
+        surface = dict(name="surface", num_sections=num, sec_name=["s%d" % i for i in range(num)], symmetry=True, taper=[1.0] * num,
+                       span=[1.0] * num, sweep=[0.0] * num, root_chord=1.0, nx=2, ny=[3] * num, meshes="gen-meshes")
+        surface[bad] = surface[bad][:-1] if rng.integers(2) else surface[bad] + [surface[bad][0]]
+        expect(ValueError, lambda surface=surface: build_sections(surface), "multi-section list %s of the wrong length" % bad, key=bad, num_sections=num)
+    # unknown key -> warning, documented keys -> no warning
+    s = pipelines.struct_surface("w", mesh, True)
+    with warnings.catch_warnings(record=True) as w:
+        warnings.simplefilter("always")
+        check_surface_dict_keys(s)
+    if w:
+        out.append(_fail("documented surface keys produce a warning", [str(x.message) for x in w][:2], "no warning"))
+    s["twist_cpp"] = 1.0
+    with warnings.catch_warnings(record=True) as w:
+        warnings.simplefilter("always")
+        check_surface_dict_keys(s)
+    if not any("twist_cpp" in str(x.message) for x in w):
+        out.append(_fail("an unknown dictionary key produces no warning", "no warning", "RuntimeWarning naming the key"))
+    return out
+
+
+@oracle("C20", "finite_repeatable_nonmutating")
+def c20_repeatable(rng, tier):
+    import hashlib
+    s = _as_surface(rng, tier, struct_weight_relief=bool(rng.integers(2)))
+    s2 = _as_surface(rng, tier)
+    flow = _as_flow(rng)
+    h0 = hashlib.sha256(np.ascontiguousarray(s["mesh"]).tobytes()).hexdigest()
+    mesh_copy = s["mesh"].copy()
+
+    def outs(p):
+        return np.concatenate([np.atleast_1d(p.get_val("AS_point_0." + o)).ravel() for o in ("CL", "CD", "CM", "fuelburn", "L_equals_W", "wing_perf.failure")]
+                              + [np.array(p.get_val("AS_point_0.coupled.wing.disp")).ravel()])
+    pa = pipelines.build_aerostruct([s], [flow])
+    pb = pipelines.build_aerostruct([s2], [_as_flow(rng)])      # an independent problem interleaved in the same process
+    with quiet():
+        pa.run_model(); a1 = outs(pa)
+        pb.run_model()
+        pa.run_model(); a2 = outs(pa)
+    pc = pipelines.build_aerostruct([s], [flow])
+    with quiet():
+        pb.run_model(); pc.run_model(); a3 = outs(pc)
+    out = []
+    case = dict(ny=s["mesh"].shape[1], symmetry=s["symmetry"])
+    if not np.all(np.isfinite(a1)):
+        out.append(_fail("outputs of an admissible configuration are not finite", a1[:6], "finite", **case))
+    if relerr(a2, a1) > 1e-10 or relerr(a3, a1) > 1e-10:
+        out.append(_fail("results are not reproducible between runs / independent problems", [relerr(a2, a1), relerr(a3, a1)], 0.0, **case))
+    if hashlib.sha256(np.ascontiguousarray(s["mesh"]).tobytes()).hexdigest() != h0 or not np.array_equal(s["mesh"], mesh_copy):
+        out.append(_fail("the mesh array of the user's surface dictionary was modified", "changed", "unchanged", **case))
+    # multi-section surfaces with user-supplied section meshes (each in its own local frame)
+    from openaerostruct.geometry.geometry_group import build_sections
+    from openaerostruct.geometry.geometry_unification import unify_mesh
+    n = int(rng.integers(2, 5))
+    meshes = []
+    for i in range(n):
+        m = gen.rand_mesh(rng, 2, int(rng.integers(2, 5)), True, planar=True, jitter=0.0)
+        meshes.append(m)
+    before = [m.copy() for m in meshes]
+    surface = dict(name="surface", num_sections=n, sec_name=["s%d" % i for i in range(n)], symmetry=True, meshes=meshes, S_ref_type="wetted",
+                   root_chord=1.0, span=[1.0] * n, taper=[1.0] * n, sweep=[0.0] * n, nx=2, ny=[m.shape[1] for m in meshes])
+    with quiet():
+        secs = build_sections(surface)
+        u1 = unify_mesh(secs); u2 = unify_mesh(secs)
+    if any(not np.array_equal(a, b) for a, b in zip(before, meshes)):
+        out.append(_fail("user-supplied section meshes were modified by build_sections / unify_mesh", "changed", "unchanged", sections=n))
+    if not np.array_equal(u1, u2):
+        out.append(_fail("unify_mesh is not repeatable on the same sections", float(np.max(np.abs(u1 - u2))), 0.0, sections=n))
+    return out
